@@ -320,6 +320,7 @@ func Main(args []string) {
 	replay := fs.String("replay", "", "replay file")
 	only := fs.Int("block", -1, "run only this block of the plan")
 	maxLen := fs.Int("maxlen", 0, "override the history length bound of every block")
+	budgetS := fs.Int("budget", 0, "override the internal deadline (seconds)")
 	fs.Parse(args)
 	if *replay != "" {
 		os.Exit(Replay(*replay))
@@ -332,6 +333,9 @@ func Main(args []string) {
 	budget := 12 * time.Minute
 	if tier == "thorough" {
 		budget = 60 * time.Minute
+	}
+	if *budgetS > 0 {
+		budget = time.Duration(*budgetS) * time.Second
 	}
 	a := &agg{found: map[string]*found{}, outcomes: map[string]int{}, digests: map[string]bool{}}
 	exhaustive := true
